@@ -553,6 +553,10 @@ class World(object):
                 order = o.layerOrder
                 if isinstance(key, int):
                     key = order[key % len(order)]
+                # deleting the default layer leaves `defaultLayer` pointing at a layer that is no longer in the
+                # set ("it's up to the caller to ensure that a default layer is present"): outside the domain
+                if o.defaultLayer is not None and key == o.defaultLayer.name:
+                    raise Skip()
 
             def t():
                 del o[key]
